@@ -13,7 +13,8 @@
         src/compile/modifier.rs:1764-1770.
     (c) [enc_ok]  src/algorithm/encode.rs:552-556, 597, 687: `binary` refuses box nesting deeper than
         MAX_BINARY_DEPTH. *)
-From Coq Require Import List NArith Arith Bool Lia.
+From Coq Require Import List NArith ZArith Arith Bool Lia.
+From UV Require Import Model.Node Model.Sig.
 Import ListNotations.
 
 (* ------------------------------------------------------------------ (a) the array size guard *)
@@ -162,7 +163,7 @@ Definition rec_main : cnode := CRun [CPrim; CGlobal 0].
 (** F n: n recursive choices, then the base case *)
 Definition rec_oracle (n : nat) : list nat := repeat 0 n ++ [1].
 Definition rec_verdict (limit : nat) (gl : list cnode) (n : nat) : bool :=
-  match cexec limit gl (4 * n + 20) rec_main 1 (rec_oracle n) with (COk, _, _) => true | _ => false end.
+  match cexec limit gl (8 * n + 40) rec_main 1 (rec_oracle n) with (COk, _, _) => true | _ => false end.
 
 (** macro expansion (modifier.rs:1764): `comptime_depth += 1; if comptime_depth > MAX { error }` is
     [CGlobal] with limit MAX - 1 on a depth starting at 0; a chain of k macros *)
@@ -192,15 +193,14 @@ Fixpoint bheight (t : btree) : nat :=
 Fixpoint box_chain (k : nat) : btree := match k with O => BLeaf | S k => BBox [box_chain k] end.
 
 (* ------------------------------------------------------------------ (d) tie programs for the signature checker *)
-From UV Require Import Model.Node Model.Sig.
 (** the IR of `F ← |1 ⊂1[⊂1[ ... ⊂1[1] ... ]]` with k brackets, as the compiler emits it (harness
     `spine show`): the innermost literal is folded to a constant, every other level is
     Array { inner: Run [level; Push 1; join] } *)
 Fixpoint arr_chain (j : nat) : node :=
   match j with
   | O => Push (SOpq 1)
-  | S j => Arr 1 (Run [arr_chain j; Push (SInt 1); Prim 1084 2 1]) false
+  | S j => Arr 1 (Run [arr_chain j; Push (SInt 1%Z); Prim 1084 2 1]) false
   end.
 Definition arr_prog (k : nat) : node :=
-  Run [arr_chain (k - 1); Push (SInt 1); Prim 1084 2 1; Mod MDip [(Sig 1 0 0 0, Prim 4 1 0)]].
+  Run [arr_chain (k - 1); Push (SInt 1%Z); Prim 1084 2 1; Mod MDip [(Sig 1 0 0 0, Prim 4 1 0)]].
 Definition arr_verdict (k : nat) : bool := match root_sig (arr_prog k) with Some _ => true | None => false end.
